@@ -4,6 +4,7 @@ import UtilModel.RefCount.ConsRelB
 import UtilModel.RefCount.ConsRelC
 import UtilModel.RefCount.ConsRelD
 import UtilModel.RefCount.WrcProofs
+import UtilModel.RefCount.Transfer
 open UtilModel UtilModel.RefCount UtilModel.RefCount.Cons
 #print axioms UtilModel.accepts_sound
 #print axioms UtilModel.accepted_satisfies
@@ -33,3 +34,7 @@ open UtilModel UtilModel.RefCount UtilModel.RefCount.Cons
 #print axioms RefCount.Wrc.wrc_obs
 #print axioms UtilModel.C10_accepted_wrc
 #print axioms UtilModel.reject_sound_wrc
+#print axioms UtilModel.C10_accepted_refcount_consumers
+#print axioms UtilModel.complete_refcount_consumers
+#print axioms UtilModel.reject_sound_refcount_consumers
+#print axioms UtilModel.complete_wrc
